@@ -84,3 +84,7 @@ Proof.
   destruct Hx as (Hg & Ht & Hgr & Hc & Hr & Hi). unfold label_node. rewrite Hgr, Hc, Hr, Hi, Ht. f_equal.
   apply (base_class_ctx fs fs' _ _ Hfs). unfold same_but_context, gfeat_of. cbn. rewrite Hg, Ht, Hc. repeat split; reflexivity.
 Qed.
+
+Theorem context_never_splits_O : forall xs xs' ord, Forall2 same_but_context_x xs xs' ->
+  plan_O ord (label_graph xs) = plan_O ord (label_graph xs') /\ prepare_O ord (label_graph xs) = prepare_O ord (label_graph xs').
+Proof. intros xs xs' ord H. rewrite (label_ctx xs xs' H). split; reflexivity. Qed.
